@@ -295,12 +295,35 @@ pub fn c16_compiled(ctx: &Ctx, out: &mut Outcome, known: &[Known]) {
                 }
             }
         }
+        // errors that rustc does not attribute to the derive (it reports them at the user's own
+        // tokens, which the derive re-emits with their spans): the control build decides. The same
+        // items without `derive(TS)` and `#[ts(..)]` compile => the expansion is at fault.
+        let outside: Vec<&Discard> = corpus
+            .discards
+            .iter()
+            .filter(|d| !must_fail.contains(&d.module.name) && d.code.is_some() && !d.in_derive_ts && !accepted_by_derive.contains(&d.module.name))
+            .collect();
+        let mut control_compiles: BTreeSet<String> = BTreeSet::new();
+        if !outside.is_empty() {
+            let controls: Vec<Module> = outside
+                .iter()
+                .map(|d| {
+                    let mut c = d.module.clone();
+                    c.without_ts_derive = true;
+                    c
+                })
+                .collect();
+            let control = build(ctx, controls, &subjects::SlotCfg::default());
+            out.bump("control_builds_without_derive", outside.len() as u64);
+            for pm in &control.modules {
+                control_compiles.insert(pm.module.name.clone());
+            }
+        }
         for d in &corpus.discards {
             if must_fail.contains(&d.module.name) {
                 continue;
             }
-            // (rustc may point at the user's own tokens, which the derive re-emits with their spans)
-            if (d.code.is_some() && d.in_derive_ts) || accepted_by_derive.contains(&d.module.name) {
+            if (d.code.is_some() && d.in_derive_ts) || accepted_by_derive.contains(&d.module.name) || control_compiles.contains(&d.module.name) {
                 let known_sig = d.module.types.iter().any(|td| {
                     td.attrs.optional_fields == Some(false)
                         && td.params.iter().any(|p| td.all_fields().iter().any(|f| matches!(&f.ty, TyExpr::Param(n) if *n == p.name)))
@@ -309,7 +332,7 @@ pub fn c16_compiled(ctx: &Ctx, out: &mut Outcome, known: &[Known]) {
                 let placed = Placed { module: d.module.clone(), slot: 0, index: 0 };
                 out.take_failures(&[json!({"signature": sig, "message": format!("the derive accepted the item but its expansion does not compile:\n{}", d.rendered.chars().take(1500).collect::<String>()), "case": case_of(&placed, json!({"compile_only": true}))})], known);
             } else if d.code.is_some() {
-                out.bump("generator_unsound_modules(compile error outside the derive)", 1);
+                out.bump("generator_unsound_modules(compile error also without the derive)", 1);
                 if std::env::var("VERIF_DEBUG").is_ok() {
                     eprintln!("=== {:?}\n{}", d.code, d.rendered.chars().take(1200).collect::<String>());
                 }
